@@ -1,6 +1,7 @@
 package zv
 
 import (
+	"go/types"
 	"go/token"
 	"strings"
 
@@ -64,18 +65,7 @@ func checkC04(c *Ctx) {
 	}
 	// R4.4
 	c4LocksCombined(c, "R4.4")
-	op := c.Func(ZapPath, "Open")
-	if c.Anchor("R4.4", "zap.Open", op != nil) {
-		ok := false
-		for _, r := range Returns(op) {
-			rv := RetVals(r)
-			if IsNilConst(Strip(rv[2])) {
-				d := Desc(rv[0])
-				ok = strings.HasPrefix(d, "CombineWriteSyncers(open(paths)#0")
-			}
-		}
-		c.Check(ok, "R4.4", op.String(), "returns-combined", op.Pos(), "Open returns CombineWriteSyncers of every opened sink")
-	}
+	c4OpenReturnsCombined(c, "R4.4")
 	nw := c.Func(ZapPath, "New")
 	if c.Anchor("R4.4", "zap.New", nw != nil) {
 		// by path exploration (constructor helpers inline): what the new Logger's errorOutput holds when it is handed on
@@ -320,4 +310,110 @@ func c4LocksCombined(c *Ctx, rule string) {
 		}
 		c.Check(!trunc && len(seqs) > 0 && len(bad) == 0, rule, cw.String(), "locks-combined/"+itoa(int(n)), cw.Pos(), "with %d writer(s) every path returns zapcore.Lock(zapcore.NewMultiWriteSyncer(writers...)): one mutex around the whole group (offending: %v)", n, bad)
 	}
+}
+
+// c4OpenReturnsCombined: by path exploration of zap.Open (its helpers inline, up to two destinations): on every path
+// without an error, what is returned is zap.CombineWriteSyncers of a list that holds exactly the sinks opened on that
+// path (so the lock CombineWriteSyncers adds covers them all).
+func c4OpenReturnsCombined(c *Ctx, rule string) {
+	op := c.Func(ZapPath, "Open")
+	comb := c.Func(ZapPath, "CombineWriteSyncers")
+	if !c.Anchor(rule, "zap.Open / zap.CombineWriteSyncers", op != nil && comb != nil) {
+		return
+	}
+	resolve := func(st *ConcState, v ssa.Value) ssa.Value {
+		for k := 0; k < 16; k++ {
+			if ct, ok := v.(*ssa.ChangeType); ok {
+				v = ct.X
+				continue
+			}
+			nx := st.Step(v)
+			if nx == nil {
+				break
+			}
+			v = nx
+		}
+		return v
+	}
+	isSyncerList := func(t types.Type) bool {
+		sl, ok := types.Unalias(t).Underlying().(*types.Slice)
+		return ok && strings.HasSuffix(sl.Elem().String(), "zapcore.WriteSyncer")
+	}
+	cut := 0
+	seqs, trunc := ConcPaths(op, ConcCfg{
+		MaxIter: 2, Cut: &cut,
+		Inline: func(h *ssa.Function) bool {
+			return h != comb && h.String() != "(*go.uber.org/zap.sinkRegistry).newSink" && !(h.Parent() != nil && len(h.Params) == 0 && h.Signature.Results().Len() == 0)
+		},
+		Fork: func(in ssa.Instruction, st *ConcState) []ConcAlt {
+			x, ok := in.(*ssa.Extract)
+			if !ok || x.Index != 1 {
+				return nil
+			}
+			if cl, isC := x.Tuple.(*ssa.Call); isC && IsCallTo(cl, "(*go.uber.org/zap.sinkRegistry).newSink") {
+				return []ConcAlt{{Ev: "opened", Nils: map[ssa.Value]bool{x: true}}, {Ev: "failed", Nils: map[ssa.Value]bool{x: false}}}
+			}
+			return nil
+		},
+		Event: func(in ssa.Instruction, st *ConcState) string {
+			if cl, isCall := in.(*ssa.Call); isCall && CallBuiltin(cl) == "append" && isSyncerList(cl.Type()) {
+				return "listed"
+			}
+			r, ok := in.(*ssa.Return)
+			if !ok || len(r.Results) != 3 || len(st.cfg.stackDepth()) != 0 {
+				return ""
+			}
+			if n, known := st.IsNil(r.Results[2]); !known || !n {
+				return "ret-err"
+			}
+			cl, isC := resolve(st, r.Results[0]).(*ssa.Call)
+			if !isC || cl.Call.StaticCallee() != comb || len(cl.Call.Args) != 1 {
+				return "ret-ok(" + st.Desc(r.Results[0]) + ")"
+			}
+			// the list handed over: the variable the opened sinks were appended to (its latest value), or a fresh
+			// empty list when nothing was appended
+			switch y := resolve(st, cl.Call.Args[0]).(type) {
+			case *ssa.Call:
+				if CallBuiltin(y) == "append" && isSyncerList(y.Type()) {
+					return "ret-combined:appended"
+				}
+			case *ssa.MakeSlice:
+				return "ret-combined:fresh"
+			case *ssa.Const:
+				if y.Value == nil {
+					return "ret-combined:fresh"
+				}
+			}
+			return "ret-combined:?"
+		},
+	})
+	var bad []string
+	nOK := 0
+	for _, sq := range seqs {
+		toks := strings.Split(sq, " ; ")
+		last := toks[len(toks)-1]
+		opened, listed, pend := 0, 0, false
+		orderOK := true
+		for _, t := range toks {
+			switch t {
+			case "opened":
+				if pend {
+					orderOK = false // the previous sink was never listed
+				}
+				opened++
+				pend = true
+			case "listed":
+				listed++
+				pend = false
+			}
+		}
+		switch {
+		case last == "ret-err":
+		case orderOK && !pend && opened == listed && (opened > 0 && last == "ret-combined:appended" || opened == 0 && (last == "ret-combined:fresh" || last == "ret-combined:appended")):
+			nOK++
+		default:
+			bad = append(bad, sq)
+		}
+	}
+	c.Check(!trunc && nOK > 0 && len(bad) == 0, rule, op.String(), "returns-combined", op.Pos(), "on every path without an error (%d paths, up to two destinations; %d longer ones cut) Open returns CombineWriteSyncers of exactly the sinks it opened (offending: %v)", len(seqs), cut, bad)
 }
